@@ -952,6 +952,15 @@ def hoisted_const(name, ty, init):
         bs = _lit_bytes(m.group(1))
         return '#[verifier::external_body]\npub exec const %s: %s ensures %s == le64(seq![%s]) { %s }' % (
             name, ty, name, ', '.join(('0x%02xu8' % b) if k == 0 else ('0x%02x' % b) for k, b in enumerate(bs)), init)
+    # `&[u8]` / `&[u8; N]` byte-string constants (R4): value contract derived from the literal
+    m = re.fullmatch(r'b"((?:[^"\\]|\\.)*)"', init)
+    if m and re.fullmatch(r"&\s*(?:'static\s+)?\[\s*u8\s*(?:;\s*\w+\s*)?\]", ty):
+        bs = _lit_bytes(m.group(1))
+        return '#[verifier::external_body]\npub exec const %s: %s ensures %s@ == seq![%s] { %s }' % (
+            name, ty, name, ', '.join(('0x%02xu8' % b) if k == 0 else ('0x%02x' % b) for k, b in enumerate(bs)), init)
+    # byte / char literals and simple integer expressions of literals
+    if re.fullmatch(r"b'(?:\\.|[^'\\])'", init) or re.fullmatch(r'[0-9a-fA-Fx_+\-*/()<>| &usizeu64u8u1632]+', init):
+        return 'pub const %s: %s = %s;' % (name, ty, init)
     if name not in CONST_ENSURES:
         raise AnchorLost('fn-local const %s has no stated value contract' % name)
     return '#[verifier::external_body]\npub exec const %s: %s ensures %s { %s }' % (name, ty, CONST_ENSURES[name], init)
